@@ -75,7 +75,7 @@ func verifyFuncs(p *Program, keys []string, o runOpts) []*FuncResult {
 				if ob.Cover {
 					ob.Result = SolveCover(ob.Query, o.workdir, ob.Name)
 				} else {
-					ob.Result = Solve(ob.Query, o.workdir, ob.Name, o.timeout, o.all)
+					ob.Result = Solve(ob.Query, o.workdir, ob.Name, o.timeout, o.all, !(ob.Kind == "guard" || (len(ob.Tags) == 1 && ob.Tags[0] == "C16")))
 				}
 				if ob.Cover && (ob.Result.Status == "sat" || ob.Result.Status == "unknown") {
 					coverMu.Lock()
